@@ -34,6 +34,7 @@ func (it liesItem) key() string {
 var positional = map[string]bool{
 	"headers/break-link": true, "headers/low-work": true, "headers/timestamp-past": true, "headers/duplicate": true,
 	"blocks/body-swap": true, "blocks/drop-txns": true, "blocks/reorder": true,
+	"blocks/body-swap+hangup": true, "blocks/drop-txns+hangup": true,
 }
 
 const (
